@@ -13,7 +13,9 @@ SHARD = 120
 PER_CASE_TIMEOUT = 30
 RULE = ("all 18 metric functions x option combinations (symmetric, square_root, sp in 1..3, "
         "horizon_weight none / positive dyadic / with zero entries / equal, multioutput raw / uniform / "
-        "weights, 1-D input or 1..3 columns, numpy or pandas containers) on small dyadic-rational "
+        "weights, 1-D input or 1..3 columns, numpy or pandas containers, storage types int64 / int32 / "
+        "float32 / bool for the series and the horizon weights - the reference is computed from the "
+        "numbers in exact arithmetic, single precision is judged at 2e-5) on small dyadic-rational "
         "data with planted structure (exact hits y_pred=y_true, zeros in y_true, y_true=y_bench, sign "
         "changes, constant training series, values below EPS); per case the implementation is also "
         "run on the perfect forecast, with truth/forecast swapped, rescaled by c, per column, and "
@@ -138,6 +140,9 @@ def _vals(rng, n, style):
         # differences around machine epsilon, all exactly representable: both sides of the EPS clamps
         return [rng.choice([0.0, 2.0 ** -60, -2.0 ** -55, 2.0 ** -53, 2.0 ** -51, -2.0 ** -50,
                             2.0 ** -52]) for _ in range(n)]
+    if style == "int_big":
+        # 32-bit integers whose differences do not fit 32 bits when squared (|d| > 46340)
+        return [rng.choice([0.0, 50000.0, -60000.0, 3.0, 65536.0, -1.0]) for _ in range(n)]
     if style == "big":
         return [rng.choice([1024.0, -4096.0, 0.5, 3.0, 2.0 ** 20]) for _ in range(n)]
     return [rng.choice(grid) for _ in range(n)]
@@ -190,10 +195,11 @@ def _opts(rng, metric):
     return o
 
 
-def _data(rng, metric, n, k, sp):
+def _data(rng, metric, n, k, sp, styles=None):
     """columns of y_true / y_pred / y_bench / y_train with planted structure."""
     extra = METRICS[metric][3]
-    style = rng.choice(["mixed", "mixed", "mixed", "pos", "zeros", "tiny", "big", "const"])
+    style = rng.choice(styles or ["mixed", "mixed", "mixed", "pos", "zeros", "tiny", "big",
+                                  "const"])
     if style == "tiny" and _short(metric) == "MAsym":
         # the threshold switch is discontinuous: keep y_true - y_pred exact in float64
         style = "mixed"
@@ -211,7 +217,8 @@ def _data(rng, metric, n, k, sp):
         yp.append(p)
     if extra == "y_pred_benchmark":
         yb = []
-        near = rng.random() < 0.12      # benchmark within a few EPS of the truth everywhere
+        # benchmark within a few EPS of the truth everywhere (not for typed storage: see _plan)
+        near = styles is None and rng.random() < 0.12
         if near:
             yt = [_vals(rng, n, "eps") for _ in range(k)]
         for j in range(k):
@@ -225,9 +232,61 @@ def _data(rng, metric, n, k, sp):
             yb.append(b)
     if extra == "y_train":
         m = sp + rng.choice([1, 1, 2, 3, 5])
-        ytr = [_vals(rng, m, rng.choice([style, "mixed", "mixed", "const", "eps"]))
+        ytr = [_vals(rng, m, rng.choice([style, "mixed", "mixed", "const"] +
+                                        (["eps"] if styles is None else [])))
                for _ in range(k)]
     return yt, yp, yb, ytr
+
+
+# ---- storage types.  The dtype of an argument only changes how its numbers are STORED: the metric
+# is defined on the numbers, so the reference below never looks at it.  A series gets a typed
+# storage only if its values are exactly representable in it (_fits).
+PLANS = ["int_true", "int_true", "int_all", "f32", "bool_true", "hw_typed", "hw_typed", "int_big"]
+# metrics that square a DIFFERENCE OF THE INPUTS themselves (the others divide first, or hand the
+# data to scikit-learn, which converts to floating point)
+SQUARES_INPUTS = {"median_squared_error", "mean_asymmetric_error", "median_squared_scaled_error"}
+
+
+def _fits(vals, dt):
+    import struct
+    flat = [v for c in vals for v in c] if vals and isinstance(vals[0], list) else list(vals)
+    if dt == "bool":
+        return all(v in (0.0, 1.0) for v in flat)
+    if dt in ("int64", "int32"):
+        lim = 2 ** 17 if dt == "int32" else 2 ** 40
+        return all(float(v).is_integer() and abs(v) <= lim for v in flat)
+    if dt == "float32":
+        return all(struct.unpack("f", struct.pack("f", v))[0] == v for v in flat)
+    return True
+
+
+def _plan(rng, c, plan):
+    """dtypes for the arguments of case c (values already chosen to suit the plan)."""
+    it = rng.choice(["int64", "int64", "int32"])
+    want = {}
+    if plan == "int_true":
+        want = {"y_true": it, "y_train": rng.choice([it, "float64"])}
+    elif plan == "int_all":
+        want = {"y_true": it, "y_pred": it, "y_bench": it, "y_train": it}
+    elif plan == "int_big":
+        want = {s_: "int32" for s_ in ("y_true", "y_pred", "y_bench", "y_train")}
+    elif plan == "f32":
+        want = {s_: "float32" for s_ in ("y_true", "y_pred", "y_bench", "y_train")}
+        if rng.random() < 0.5:
+            want["hw"] = "float32"
+    elif plan == "bool_true":
+        want = {"y_true": "bool"}
+    elif plan == "hw_typed":
+        want = {"hw": rng.choice(["int64", "int32", "bool", "float32"])}
+        if rng.random() < 0.5:
+            want["y_true"] = it
+    dts = {}
+    for s_, dt in want.items():
+        v = c.get(s_)
+        if v is not None and dt != "float64" and _fits(v, dt):
+            dts[s_] = dt
+    if dts:
+        c["dtypes"] = dts
 
 
 def _func_case(rng, metric, force=None):
@@ -240,15 +299,36 @@ def _func_case(rng, metric, force=None):
     if omit:        # call without the option keywords: the documented defaults must apply
         o = {nm: DEFAULTS[nm] for nm in o}
     sh = _short(metric)
-    yt, yp, yb, ytr = _data(rng, metric, n, k, o.get("sp", 1))
+    plan = force.get("plan", rng.choice(PLANS) if rng.random() < 0.4 else None)
+    if plan == "f32" and sh in GM:
+        plan = None     # the root equation amplifies single-precision rounding beyond any tolerance
+    styles = None
+    if plan in ("int_true", "int_all", "bool_true"):
+        styles = ["mixed", "mixed", "pos", "zeros", "const", "big"]
+    elif plan == "int_big":
+        styles = ["int_big"]
+    elif plan == "f32":
+        styles = ["mixed", "mixed", "pos", "zeros", "const", "big"]
+    yt, yp, yb, ytr = _data(rng, metric, n, k, o.get("sp", 1), styles)
+    if plan in ("int_true", "int_all", "bool_true"):
+        # count-like data: the quarter grid becomes the integers (planted equalities survive)
+        yt, yp, ytr = [[[4.0 * v for v in col] for col in s_] if s_ is not None else None
+                       for s_ in (yt, yp, ytr)]
+        yb = [[4.0 * v for v in col] for col in yb] if yb is not None else None
+    if plan == "bool_true":
+        yt = [[float(rng.random() < 0.5) for _ in col] for col in yt]
     if sh == "MAsym" and rng.random() < 0.6:
         # plant errors exactly AT the threshold (the switch is `<`, not `<=`)
         for j in range(k):
             i = rng.randrange(n)
             yp[j][i] = yt[j][i] - o["asymmetric_threshold"]
     hw = None
-    if force.get("hw", rng.random() < 0.5):
+    if force.get("hw", rng.random() < (0.5 if plan is None else 0.8)):
         hw = _hw(rng, n)
+        if plan == "hw_typed" and rng.random() < 0.6:
+            hw = [float(rng.choice([0, 1, 1, 2, 3])) for _ in range(n)]
+            if sum(hw) == 0:
+                hw[rng.randrange(n)] = 1.0
     c = {"kind": "func", "metric": metric, "opts": o, "mo": _mo(rng, k), "hw": hw,
          "univariate": univ, "container": "pandas" if rng.random() < 0.2 else "numpy",
          "y_true": yt, "y_pred": yp}
@@ -260,6 +340,16 @@ def _func_case(rng, metric, force=None):
     if omit:
         c["omit_opts"] = True
     c["agg"] = STRUCT[sh][3] or "inner"
+    if plan is not None:
+        _plan(rng, c, plan)
+    dts = c.get("dtypes", {})
+    if plan == "int_big" and dts.get("y_true") == "int32":
+        i32 = {s_ for s_, dt in dts.items() if dt == "int32"}
+        rl = c["opts"].get("relative_loss_function")
+        if (metric in SQUARES_INPUTS and "y_pred" in i32) \
+                or (metric == "median_squared_scaled_error" and "y_train" in i32) \
+                or (rl == "median_squared_error" and i32 & {"y_pred", "y_bench"}):
+            c["tag"] = "int32-squared-differences"
     return c
 
 
@@ -301,6 +391,10 @@ def gen_cases(rng, tier):
                     c["y_bench"] = yb
                 if ytr is not None:
                     c["y_train"] = ytr
+                if rng.random() < 0.3:
+                    _plan(rng, c, rng.choice(["int_true", "int_all", "f32"]))
+                    if _single_precision(c) and sh in GM:
+                        del c["dtypes"]
                 cases.append(c)
                 if extra and rep == 0:
                     d = dict(c)
@@ -327,9 +421,11 @@ def gen_cases(rng, tier):
 # implementation side (runs in the driver subprocess)
 
 
-def _arr(cols, univ, container="numpy", start=0):
+def _arr(cols, univ, container="numpy", start=0, dtype=None):
     import numpy as np
     a = np.array(cols, dtype=float).T
+    if dtype:
+        a = a.astype(dtype)
     if univ:
         a = a[:, 0]
     if container == "pandas":
@@ -348,10 +444,13 @@ def _kwargs(case, F, scale=1.0, container=None, swap=False, perfect=False, cols=
     if cols is not None:
         univ = True
     m = len(case["y_train"][0]) if "y_train" in case else 0
-    yt = _arr(sel(case["y_true"]), univ, cont, m)
-    yp = _arr(sel(case["y_pred"]), univ, cont, m)
+    dts = case.get("dtypes", {})
+    yt = _arr(sel(case["y_true"]), univ, cont, m, dts.get("y_true"))
+    yp = _arr(sel(case["y_pred"]), univ, cont, m, dts.get("y_pred"))
     if perfect:
-        yp = yt.copy()
+        # the same numbers as forecast (numpy has no boolean subtraction: a boolean truth is
+        # forecast perfectly by the same 0/1 values stored as floats)
+        yp = yt.astype(float) if dts.get("y_true") == "bool" else yt.copy()
     if swap:
         yt, yp = yp, yt
     kw = {}
@@ -363,10 +462,24 @@ def _kwargs(case, F, scale=1.0, container=None, swap=False, perfect=False, cols=
     if "relative_loss_function" in o and not case.get("omit_opts"):
         kw["relative_loss_function"] = getattr(F, o["relative_loss_function"])
     if "y_bench" in case:
-        kw["y_pred_benchmark"] = _arr(sel(case["y_bench"]), univ, cont, m) * scale
+        kw["y_pred_benchmark"] = _arr(sel(case["y_bench"]), univ, cont, m, dts.get("y_bench"))
     if "y_train" in case:
-        kw["y_train"] = _arr(sel(case["y_train"]), univ, cont, 0) * scale
-    return yt * scale, yp * scale, kw
+        kw["y_train"] = _arr(sel(case["y_train"]), univ, cont, 0, dts.get("y_train"))
+    if scale != 1.0:        # (a typed array times 1.0 would silently become float64)
+        yt, yp = yt * scale, yp * scale
+        for nm in ("y_pred_benchmark", "y_train"):
+            if nm in kw:
+                kw[nm] = kw[nm] * scale
+    return yt, yp, kw
+
+
+def _hw_arg(case, hw):
+    """the horizon weights as passed: a list of floats, or an array of the planned dtype."""
+    dt = case.get("dtypes", {}).get("hw")
+    if hw is None or not dt:
+        return hw
+    import numpy as np
+    return np.array(hw, dtype=float).astype(dt)
 
 
 def _fl(r):
@@ -425,7 +538,7 @@ def run_impl(case):
         else:
             out["cls"] = _try(obj, yt, yp, **extra)
         return out
-    hw = case["hw"]
+    hw = _hw_arg(case, case["hw"])
     mo = _mo_arg(case["mo"])
     out = {"val": _try(f, yt, yp, horizon_weight=hw, multioutput=mo, **kw)}
     if isinstance(out["val"], dict):
@@ -448,7 +561,8 @@ def run_impl(case):
             per.append(_try(f, a, b, horizon_weight=hw, multioutput="uniform_average", **kw2))
         laws["percol"] = per
     if hw is not None:
-        laws["hw_x4"] = _try(f, yt, yp, horizon_weight=[4.0 * w for w in hw], multioutput=mo, **kw)
+        laws["hw_x4"] = _try(f, yt, yp, horizon_weight=_hw_arg(case, [4.0 * w for w in case["hw"]]),
+                             multioutput=mo, **kw)
     else:
         laws["hw_equal"] = _try(f, yt, yp, horizon_weight=[2.0] * len(case["y_true"][0]),
                                 multioutput=mo, **kw)
@@ -618,7 +732,19 @@ def _finite(xs):
         isinstance(x, Fraction) or math.isfinite(x) for x in xs)
 
 
-def _close(a, b, tol=TOL):
+# single-precision DATA is computed with in single precision: such cases are judged with a
+# tolerance of 2e-5 (and are not sent to Coq, whose comparison is at 1e-9); everything else at 1e-9
+F32_TOL = Fraction(2, 10 ** 5)
+_TOL = [TOL]
+
+
+def _single_precision(case):
+    # (single-precision WEIGHTS count too: scikit-learn's metrics then average in single precision)
+    return any(dt == "float32" for dt in case.get("dtypes", {}).values())
+
+
+def _close(a, b, tol=None):
+    tol = _TOL[0] if tol is None else tol
     if not _finite([a, b]):
         return False
     a, b = Fraction(a), Fraction(b)
@@ -673,6 +799,7 @@ def _class_has_witness(case):
 
 
 def oracle(case, out):
+    _TOL[0] = F32_TOL if _single_precision(case) else TOL
     kind = case["kind"]
     if kind == "class_opts":
         if "err" in out:
@@ -933,11 +1060,12 @@ def coq_case(case, out):
         if isinstance(out["func"], dict) or case.get("omit_ctor"):
             return None
         cc = _cclass(case, out)
-        if not _finite(out["cls"]) or not _finite(out["func"]) or not _class_has_witness(case):
+        if not _finite(out["cls"]) or not _finite(out["func"]) or not _class_has_witness(case) \
+                or _single_precision(case):
             return cc
         v = "CFunc (mkcase %s %s %s)" % (_cinputs(case), _cql(out["cls"]), _cql(out["cls"]))
         return v if cc is None else "CPair (%s) (%s)" % (cc, v)
-    if not _finite(out["val"]) or not _finite(out.get("raw")):
+    if not _finite(out["val"]) or not _finite(out.get("raw")) or _single_precision(case):
         return None
     fam = STRUCT[_short(case["metric"])][0]
     wit = out["raw"] if fam == "simple" else out["val"]
@@ -958,6 +1086,11 @@ def distribution(cases, results):
         if c["kind"] == "func":
             d["func:" + _short(c["metric"])] += 1
             d["func:hw=%s" % ("none" if c["hw"] is None else "given")] += 1
+            for s_, dt in sorted(c.get("dtypes", {}).items()):
+                d["func:dtype:%s=%s" % (s_, dt)] += 1
+            if c.get("dtypes", {}).get("y_true", "f")[0] in "ib" and c["hw"] is not None \
+                    and any(w != int(w) for w in c["hw"]):
+                d["func:integer-or-bool truth with fractional weights"] += 1
             d["func:mo=%s" % (c["mo"] if isinstance(c["mo"], str) else "weights")] += 1
             d["func:columns=%s" % ("1-D" if c["univariate"] else len(c["y_true"]))] += 1
             d["func:%s" % ("raised" if isinstance(o.get("val"), dict) else "value")] += 1
